@@ -3,5 +3,6 @@ EXTENDS Purity
 AllDocs == {"dA", "dB", "dC"}
 AllPageSets == {{1}, {2}, {1, 2}}
 BothPages == {{1, 2}}
+TwoPageSets == {{2}, {1, 2}}
 NoDev == {}
 ====
